@@ -1,0 +1,11 @@
+//go:build verif
+
+package dkg
+
+import vss "go.dedis.ch/kyber/v4/share/vss/rabin"
+
+// VerifDealer is a verification hook, compiled only with the build tag
+// "verif": it exposes the VSS dealer of this DKG participant so that a
+// simulated malicious participant can craft per-recipient deals through the
+// real encryption path (vss.Dealer.VerifEncryptDeal).
+func (d *DistKeyGenerator) VerifDealer() *vss.Dealer { return d.dealer }
